@@ -419,8 +419,8 @@ struct Digit {
                         return QNumberType::Real;
                     }
 
-                    if (number.Natural <= 0x7FFFFFFFFFFFFFFFULL) {
-                        number.Integer = -number.Integer;
+                    if (number.Natural <= 0x8000000000000000ULL) {
+                        number.Natural = (~number.Natural + 1U); // two's complement; also right for 2^63.
                         return QNumberType::Integer;
                     }
                 }
